@@ -28,11 +28,39 @@ fn plant(t: &mut Tape, r: &mut Rule, z: &str) {
     }
 }
 
+/// replaces one element of every input term by a structure `<s1 .. sk>` spelling a syllable of the word (graphemes or matching groups), with `z` inserted among the items
+fn plant_in_structure(t: &mut Tape, r: &mut Rule, z: &str, w: &MWord) -> bool {
+    let tb = tables();
+    let cands: Vec<&MSyll> = w.sylls.iter().filter(|s| !s.segs.is_empty() && s.segs.windows(2).all(|p| p[0] != p[1]) && s.segs.iter().all(|x| tb.by_value.contains_key(x))).collect();
+    if cands.is_empty() { return false }
+    let Side::Terms(terms) = &mut r.input else { return false };
+    let mut positions = vec![];
+    for term in terms.iter_mut() {
+        let idxs: Vec<usize> = term.iter().enumerate().filter(|(_, e)| !matches!(e, El::Ellipsis)).map(|(i, _)| i).collect();
+        if idxs.is_empty() { return false }
+        let i = idxs[t.pick(idxs.len())];
+        let sy = cands[t.pick(cands.len())];
+        let mut items: Vec<El> = sy.segs.iter().map(|x| {
+            if t.chance(1, 4) { let gs: Vec<char> = GROUPS.iter().copied().filter(|g| group_matches(*g, x)).collect(); if !gs.is_empty() { return El::Group { letter: gs[t.pick(gs.len())], params: None, var: None } } }
+            El::Ipa { text: tb.by_value[x].clone(), params: None }
+        }).collect();
+        let at = match t.weighted(&[3, 1, 1]) { 0 => items.len(), 1 => 0, _ => t.pick(items.len() + 1) };
+        items.insert(at, El::Ipa { text: z.to_string(), params: None });
+        if at + 1 == items.len() && t.chance(1, 4) { items.push(El::Ellipsis); }
+        term[i] = El::Struct { items, params: None, var: None };
+        positions.push(i);
+    }
+    // keep a substitution well-typed: a syllable in the input takes a syllable-level matrix in the output
+    if let Side::Terms(outs) = &mut r.output { for (j, i) in positions.iter().enumerate() { let jj = j.min(outs.len().saturating_sub(1)); if let Some(o) = outs.get_mut(jj) { if let Some(e) = o.get_mut(*i) {
+        *e = El::Matrix { params: Params { args: vec![(Sign::Plus, PName::Stress)], tone: None }, var: None }; } } } }
+    true
+}
+
 impl Property for C06 {
     fn id(&self) -> &'static str { "C06" }
     fn rule(&self) -> String {
         "A rule from the full-grammar generator (all four rule types, condensed rules, sets, optionals, ellipses, structures, variables, alphas, environment sets; elements word-directed) and a generated word (30% from the rich pool, stress/tone/length); \
-         a plain literal z from the common phone pool whose bundle differs from every segment of the parsed word is planted as a mandatory top-level element of every input term (insertion rules: on one side of every environment of the context). \
+         a plain literal z from the common phone pool whose bundle differs from every segment of the parsed word is planted as a mandatory top-level element of every input term (insertion rules: on one side of every environment of the context); in one non-insertion rule out of six it is instead planted inside an input structure `<…>` whose other items spell out a whole syllable of the word. \
          Also blank, whitespace-only and comment-only lines. Oracle: the structural result of applying the rule is Err(_) or equal to the word (segments, boundaries, stress, tone); black-box cross-check: asca::run gives the same text as the empty rule list. \
          Non-trivial: the rule uses ≥1 of set/optional/ellipsis/structure/variable/alpha/env-set/condensed and the word has ≥2 syllables, and the call returned Ok. Quick 2M, thorough 20M cases.".into()
     }
@@ -50,7 +78,10 @@ impl Property for C06 {
             let cands: Vec<&PSeg> = pool().common.iter().filter(|p| !flat.contains(&p.seg)).collect();
             if cands.is_empty() { return None }
             let z = cands[t.pick(cands.len())].text.clone();
-            plant(t, &mut r, &z);
+            // one rule in six: the literal is planted *inside* an input structure whose other items spell out a whole syllable of the word,
+            // so that the syllable is used up exactly where the absent literal stands (or just before / after it)
+            let planted_in_struct = rule_kind(&r) != "insertion" && t.chance(1, 6) && plant_in_structure(t, &mut r, &z, &MWord::from_asca(&pw));
+            if planted_in_struct { g.uses.insert("structure"); } else { plant(t, &mut r, &z); }
             let kind_of = |e: Option<&El>| match e { None => "none", Some(El::SBound) => "sbound", Some(El::WBound) => "wbound", Some(El::Struct { .. }) => "struct", Some(El::Syll { .. }) => "syll", Some(El::Opt { .. }) => "opt", Some(El::Ellipsis) => "ellipsis", Some(El::Set(_)) => "set", Some(_) => "seg" };
             let (bl, af) = match &r.context { Some(EnvSpec::List(items)) => match items.first() { Some(EnvItem::One(e)) => (kind_of(e.before.last()), kind_of(e.after.first())), _ => ("?", "?") }, _ => ("?", "?") };
             Some(json!({"rule": rule_text(&r), "word": word, "planted": z, "uses": g.uses.iter().collect::<Vec<_>>(), "kind": rule_kind(&r), "before_last": bl, "after_first": af}))
